@@ -134,7 +134,7 @@ static std::string tyName(Type* t)
         else
         {
             n = "u" + std::to_string(w) + "_t";
-            typeDecls << "#ifdef __CPROVER__\ntypedef unsigned __CPROVER_bitvector[" << w << "] " << n << ";\n#else\ntypedef unsigned _ExtInt("
+            typeDecls << "#if defined(__CPROVER__) || defined(VP_CBMC_BUILD)\ntypedef unsigned __CPROVER_bitvector[" << w << "] " << n << ";\n#else\ntypedef unsigned _ExtInt("
                       << w << ") " << n << ";\n#endif\n";
         }
     }
